@@ -596,6 +596,14 @@ class Calls(Exec):
             lo = self.ev1(a[1], st).t
             hi = self.ev1(a[2], st).t
             arr, off, n = str_parts(self.as_str(sv))
+            if len(a) == 5:
+                # numshape(s, lo, hi, a, p): the defining formula with explicit split points.  The
+                # definitional instance  body(a, p) -> numshape(s, lo, hi)  is sound in every context.
+                wa = self.ev1(a[3], st).t
+                wp = self.ev1(a[4], st).t
+                body = self.numshape_body(arr, simp(off + lo), simp(off + hi), simp(off + wa), simp(off + wp))
+                st.assume(IMPL(body, self.numshape(arr, simp(off + lo), simp(off + hi))))
+                return VBool(body)
             return VBool(self.numshape(arr, simp(off + lo), simp(off + hi)))
         if name == 'chars_hold':
             # chars_hold(s, a, b, m): every character s[i], a <= i < b, is accepted by the matcher m;
@@ -825,19 +833,22 @@ class Calls(Exec):
     def numshape(self, arr, lo, hi):
         """the characters arr[lo:hi] have the shape  -?d+ | -?d+. | -?d+.d+ | -?.d+   (d = str.isdecimal).
         Existential over the two split points (end of sign, end of integer part); absolute positions."""
+        # an uninterpreted predicate DEFINED as  exists a, p. numshape_body(arr, lo, hi, a, p).  It is
+        # established only through the explicit-witness form (numshape with 5 arguments) and consumed only
+        # by float() (axiom A-floatstr), so the solver never has to find the witnesses itself.
+        return z3.Function('numshape', ArrII, IntS, IntS, BoolS)(arr, lo, hi)
+
+    def numshape_body(self, arr, lo, hi, a, p):
         USED_CHAR_AXIOMS[0] = True
-        a = fresh_int('ns_a')
-        p = fresh_int('ns_p')
         k = fresh_int('qk')
         dec = lambda x, y: z3.ForAll([k], z3.Implies(z3.And(k >= x, k < y),
                                                       z3.And(z3.Select(arr, k) >= 0, isdecimal_uf(z3.Select(arr, k)))))
-        body = z3.And(lo <= a, a <= p, p <= hi,
+        return z3.And(lo <= a, a <= p, p <= hi,
                       z3.Or(a == lo, z3.And(a == lo + 1, z3.Select(arr, lo) == ord('-'))),
                       dec(a, p),
                       z3.Or(p == hi, z3.And(z3.Select(arr, p) == ord('.'), dec(p + 1, hi))),
                       # at least one digit
                       z3.Or(p > a, hi > p + 1))
-        return z3.Exists([a, p], body)
 
     def to_float(self, st, v, node):
         if isinstance(v, (VInt, VBool)):
